@@ -119,7 +119,7 @@ pub open spec fn is_prefix_bytes(s: &str, n: usize) -> bool {
 //@ region src/options/set.rs set_options
 //@sig pub fn set_options_side_by_side_minus_styles(opt: &mut cli::Opt, features: &Vec<String>, arg_matches: &clap::ArgMatches)
 //@from <<<if features.contains(&"side-by-side".to_string()) {>>>
-//@until <<<// Handle options which default to an arbitrary git config value.>>>
+//@toblock
 //@rewrite <<<features.contains(&"side-by-side".to_string())>>> => <<<verif_has_feature(features, "side-by-side")>>>
 //@rewrite <<<&opt.minus_style[prefix.len()..]>>> => <<<verif_str_tail(&opt.minus_style, prefix.len())>>>
 //@rewrite <<<&opt.minus_emph_style[prefix.len()..]>>> => <<<verif_str_tail(&opt.minus_emph_style, prefix.len())>>>
@@ -231,7 +231,7 @@ pub open spec fn named_then_flags_spec(named: Seq<&str>, builtin: Map<String, Bu
 //@| ensures r@ =~= named_then_flags_spec(input_features@, builtin_features@, old(opt), git_config),  // @C13:named.features.are.gathered.before.the.command.line.feature.flags.in.a.fixed.order
 //@|         *final(opt) == *old(opt),
 //@rewriteall <<<for feature in input_features {>>> => <<<for feature in it: input_features {>>>
-//@before <<<// Gather features from command line.>>>| let ghost named = input_features@; let ghost gc0 = *git_config; proof { assert(features@ =~= Seq::<String>::empty()); }
+//@after <<<let mut features = VecDeque::new();>>>| let ghost named = input_features@; let ghost gc0 = *git_config; proof { assert(features@ =~= Seq::<String>::empty()); }
 //@loop 1| invariant *opt == *old(opt), it.seq() == named, features@ =~= gather_named(Seq::empty(), named, it.index@, builtin_features@, opt, &gc0), gc0 == Some(*git_config),
 //@loop 2| invariant *opt == *old(opt), it.seq() == named, features@ =~= gather_named(Seq::empty(), named, it.index@, builtin_features@, opt, &gc0), gc0 is None,
 
